@@ -115,7 +115,7 @@ def explore(item):
     ctx = Ctx(timeout_ms, max_paths=50000)
     D = [SymKey('d%d' % i) for i in range(maxn)]
     G = [SymKey('g%d' % i) for i in range(maxn)]
-    VALS = ['v0', ('v', 1), 2.5][:maxn]
+    VALS = [0, ('v', 1), ''][:maxn]         # values are opaque to textX: falsy ones are values like any other
 
     def count(c, what):
         for k in range(maxn):
@@ -187,8 +187,11 @@ def explore(item):
                 if len(p) != len(kw):
                     return ('bad', 'model %s exposes %d parameters, %d given' % (fn, len(p), len(kw)),
                             describe(c, D, G, nd, ng))
+                missing = object()
                 for g, val in kw.items():
-                    if g not in p or p[g] is not val:
+                    # the whole read interface of the mapping
+                    if g not in p or p[g] is not val or p.get(g) is not val or p.get(g, missing) is not val \
+                            or not any(k == g and v is val for k, v in p.items()):
                         return ('bad', 'model %s: parameter %s missing or changed' % (fn, g),
                                 describe(c, D, G, nd, ng))
             return ('ok-accepted', len(models), None)
@@ -256,7 +259,7 @@ def replay_concrete(pi, ki, global_repo, declared, given):
                                                                       glob_args={'recursive': True})})
         for d in declared:
             mm.model_param_defs.add(d, 'declared')
-        kw = {g: v for g, v in zip(given, ['v0', ('v', 1), 2.5])}
+        kw = {g: v for g, v in zip(given, [0, ('v', 1), ''])}
         should_accept = all(g in declared for g in kw)
         mainname = 'main.qa' if two else 'main.m'
         main = os.path.join(tmp, mainname)
@@ -278,7 +281,7 @@ def replay_concrete(pi, ki, global_repo, declared, given):
         for m in closure(model):
             p = getattr(m, '_tx_model_params', None)
             fn = os.path.basename(getattr(m, '_tx_filename', None) or '<str>')
-            if p is None or dict(p) != kw or any(p[k] is not v for k, v in kw.items()):
+            if p is None or dict(p) != kw or any(p[k] is not v or p.get(k, p) is not v for k, v in kw.items()):
                 return True, 'model %s exposes %r, given %r' % (fn, dict(p) if p is not None else None, kw)
         return False, 'parameters reach every model'
     finally:
